@@ -134,10 +134,45 @@ def manager_path(K, max_loss, free_cfg):
     return path
 
 
+def two_managers_path(K):
+    """two ConnectionManager objects on one loop: A's attempts all fail, B connects (at a free instant) and stays up.
+    A's pacing must be what it is without B - managers must not share back-off state."""
+    def path(eng, ctx):
+        names2 = {}
+
+        def second(name, i, param):
+            if name == "ok":
+                return 1
+            if name == "lat":
+                names2[f"lat{i}"] = param(f"b_lat{i}", 0, 9)
+                return names2[f"lat{i}"]
+            return 0
+        r = M.run_manager(eng, K, T_max=None, max_loss=0, lat_max=1, fixed={f"ok{i}": 0 for i in range(K + 1)}, second=second)
+        w = M.witness(r, K, extra={"max_delay": 60, "connection_lost_back_off_threshold": 5, "connection_lost_back_off_sleep_sec": 5})
+        for k_ in list(w["params"]):
+            if k_.startswith("b_"):
+                w["params"].pop(k_)
+        w["params"].update({f"ok{i}": 0 for i in range(K + 1)})
+        w["second"] = {"ok0": 1, **{k_: v for k_, v in names2.items()}}
+        ctx.witness, ctx.obs = w, M.obs_of(r["trace"])
+        ctx.nontrivial()
+
+        def holds(c):
+            return c if isinstance(c, bool) else eng.valid(c)[0]
+        res = CT.analyse_c18(r["trace"], 60, 5, 5, M.SCALE, holds, min, max)
+        if res:
+            ctx.violation(f"{res[0][0]}: {res[0][1]} (a second manager connected meanwhile)", w)
+        else:
+            ctx.check(True, "pacing of manager A with manager B alive", w)
+    return path
+
+
 def scenarios(tier):
     q = tier == "quick"
     A = inject.assumptions(("mc",)) + ["event loop = symx.vloop.VLoop; datetime.utcnow in han.meter_connection = virtual clock", "pow2 is uninterpreted with the instances pow2(0)=1, pow2(n)=2*pow2(n-1) (lemma)"]
-    return [Scenario("strategy lemma: one operation from an arbitrary invariant state (n, max_delay unbounded)", lemma_path(),
+    return [Scenario(f"two managers on one loop: A fails {5 if q else 7} times while B connects at a free instant", two_managers_path(5 if q else 7),
+                     bounds={"manager A": f"{5 if q else 7} failing attempts, latency 0..1 s", "manager B": "one successful attempt with latency 0..9 s, stays connected"}, domains=("mc",), frontier=4, assumptions=A, replay_cap=100),
+            Scenario("strategy lemma: one operation from an arbitrary invariant state (n, max_delay unbounded)", lemma_path(),
                      bounds={"n": "any integer >= 0", "max_delay": "any integer >= 1", "operations": "failure | reset | current_delay_sec"}, domains=("mc",), frontier=2, workers=1, assumptions=A),
             Scenario(f"strategy: every failure/reset sequence of {10 if q else 14} calls, free max_delay", sequences_path(10 if q else 14),
                      bounds={"calls": 10 if q else 14, "max_delay": "1..3600 (free)", "choice per step": "failure | reset"}, domains=("mc",), frontier=5, assumptions=A, replay_cap=100),
